@@ -261,7 +261,11 @@ def bf(ctx, b):
     k = ok_[0]
     mkexp = lambda v_: T.app('upd', li.lh[k], T.app('axis', AX(1), col), T.app('upd', index_term(li.lh[k], T.app('axis', AX(1), col)), lag, v_))
     exp = mkexp(val)
-    ctx.eq('C12.bf.value', A, 'value', li.next[k], exp, alts=[mkexp(v_) for v_ in val_alts], sp=li.sp, why='out[lag, col] = (1/n) sum_{t < n-lag} c_t c_{t+lag}, c the mean-centred column (centre, sum, normalise by the chain length)')
+    # every spelling of the series length is n (a column of an (n, d) array; checked as C12.bf.loops for the lag count): differences
+    # the evaluator left saturating (`iter().skip(lag)`) are decided with lag < n
+    same_n = {x: n for x in [T.app('len', cdat), T.app('len', column)] + lag_counts[1:]}
+    found = settle_monus(T.subst(li.next[k], same_n), {lag: n}) if okshape and isinstance(li.next[k], T.Tm) else li.next[k]
+    ctx.eq('C12.bf.value', A, 'value', found, exp, alts=[mkexp(v_) for v_ in val_alts], sp=li.sp, why='out[lag, col] = (1/n) sum_{t < n-lag} c_t c_{t+lag}, c the mean-centred column (centre, sum, normalise by the chain length)')
     ctx.eq('C12.bf.ret', A, 'return', ev.ret_term, lo.lx[outk[0]] if len(outk) == 1 else T.UNIT, sp=sp, why='returns the filled array')
 
 
